@@ -8,8 +8,9 @@ TI_VERSIONS = ["20", "7.0", "7.1", "10.0.1", "Rawhide", "eln"]
 TOP_IDS = ["Server", "Client", "Workstation", "BaseOS", "AppStream", "Fedora"]
 CHILD_IDS = ["optional", "HighAvailability", "Tools", "RT", "SAP", "debug"]
 PLATFORMS = ["xen", "ppc64le", "uefi", "Xen-PV"]
-IMAGE_NAMES = ["boot.iso", "kernel", "initrd", "Kernel", "efiboot.img", "upgrade"]
-PATHS = ["Packages", ".", "repo", "src repo", "images/boot.iso", "a/b/c", "ünï/côde", "x" * 40, "Server/os"]
+IMAGE_NAMES = ["boot.iso", "kernel", "initrd", "Kernel", "efiboot.img", "upgrade", "boot iso", "BOOT.ISO", "x.y-z_0", "initrd.IMG"]
+PATHS = ["Packages", ".", "repo", "src repo", "images/boot.iso", "a/b/c", "ünï/côde", "x" * 40, "Server/os",
+         "a=b", "c:d", "semi;colon", "has # hash", "[bracket]", "with = and : both", "back\\slash", "UPPER/lower"]
 
 
 def gen_content(rng, max_top=3, max_children=3, src=None, float_ts=False):
